@@ -119,7 +119,6 @@ class _InMemoryFeedback(Feedback):
            metadata: Optional[Dict[str, Any]] = None,
            related_links: Optional[Dict[str, str]] = None) -> None:
     """Marks current tuning trial as done, and export final object."""
-    del related_links
     # Test-and-set of the status under the study lock: only one of several
     # co-workers completes (and feeds back) the trial.
     _verif_hooks.emit('want_study', sid=id(self._study), sec=3)
@@ -140,6 +139,7 @@ class _InMemoryFeedback(Feedback):
       self._trial.final_measurement = self._trial.measurements[-1]
       self._feedback_fn(self.dna, self._trial)
       self._trial.metadata.update(metadata or {})
+      self._trial.related_links.update(related_links or {})
       self._study._complete_trial(self._trial)  # pylint: disable=protected-access
 
   def skip(self, reason: Optional[str] = None) -> None:
